@@ -58,7 +58,7 @@ class T:
 SCALARS = ["int", "float", "bool", "str", "none"]
 LEAVES = ["datetime", "date", "time", "timedelta", "timezone", "UUID", "Decimal", "Fraction",
           "IPv4Address", "IPv6Address", "IPv4Network", "IPv6Network", "IPv4Interface", "IPv6Interface",
-          "PurePosixPath", "Pattern"]
+          "PurePosixPath", "Path", "Pattern"]
 LEAF_PY = {
     "datetime": "datetime.datetime", "date": "datetime.date", "time": "datetime.time",
     "timedelta": "datetime.timedelta", "timezone": "datetime.timezone", "UUID": "uuid.UUID",
@@ -66,7 +66,7 @@ LEAF_PY = {
     "IPv4Address": "ipaddress.IPv4Address", "IPv6Address": "ipaddress.IPv6Address",
     "IPv4Network": "ipaddress.IPv4Network", "IPv6Network": "ipaddress.IPv6Network",
     "IPv4Interface": "ipaddress.IPv4Interface", "IPv6Interface": "ipaddress.IPv6Interface",
-    "PurePosixPath": "pathlib.PurePosixPath", "Pattern": "re.Pattern",
+    "PurePosixPath": "pathlib.PurePosixPath", "Path": "pathlib.Path", "Pattern": "re.Pattern",
 }
 
 PRELUDE = """import collections, dataclasses, datetime, decimal, enum, fractions, ipaddress, pathlib, re, typing, uuid
@@ -79,6 +79,7 @@ from uuid import UUID
 from ipaddress import IPv4Address, IPv6Address, IPv4Network, IPv6Network, IPv4Interface, IPv6Interface
 from pathlib import PurePosixPath, PurePath, Path
 from collections import OrderedDict, deque, ChainMap, Counter, defaultdict
+from types import MappingProxyType
 from mashumaro import DataClassDictMixin, pass_through
 from mashumaro.config import BaseConfig
 from mashumaro.dialect import Dialect
@@ -135,6 +136,8 @@ def py_ann(t: T) -> str:
         return f"ChainMap[{a[0]}, {a[1]}]"
     if k == "defaultdict":
         return f"DefaultDict[{a[0]}, {a[1]}]"
+    if k == "mappingproxy":
+        return f"MappingProxyType[{a[0]}, {a[1]}]"
     if k == "opt":
         return f"Optional[{a[0]}]"
     if k == "union":
@@ -263,7 +266,7 @@ class GenOpts:
     depth: int = 3
     leaves: list[str] = field(default_factory=lambda: list(LEAVES))
     containers: list[str] = field(default_factory=lambda: ["list", "set", "frozenset", "tuplevar", "tuplefix", "dict", "opt",
-                                                            "seq", "deque", "mapping", "ordereddict", "counter", "chainmap", "defaultdict"])
+                                                            "seq", "deque", "mapping", "ordereddict", "counter", "chainmap", "defaultdict", "mappingproxy"])
     classes: bool = True          # dataclasses / enums
     named: bool = True            # named tuples, typed dicts
     unions: bool = False
@@ -318,10 +321,12 @@ class SchemaGen:
         existing = [c for c in self.fam.classes if c.kind == "enum"]
         if existing and r.random() < 0.5:
             return T("enum", name=r.choice(existing).name)
-        base = r.choice(["Enum", "Enum", "IntEnum", "StrEnum"] if not self.o.coq_only else ["Enum", "IntEnum", "StrEnum"])
+        base = r.choice(["Enum", "Enum", "IntEnum", "StrEnum", "Flag", "IntFlag"] if not self.o.coq_only else ["Enum", "IntEnum", "StrEnum"])
         name = self.fresh("E")
         n = r.randrange(1, 4)
-        if base == "IntEnum":
+        if base in ("Flag", "IntFlag"):
+            members = [(f"M{i}", 1 << i) for i in range(n)]
+        elif base == "IntEnum":
             members = [(f"M{i}", i * 3 + 1) for i in range(n)]
         elif base == "StrEnum":
             members = [(f"M{i}", f"s{i}") for i in range(n)]
@@ -375,7 +380,9 @@ class SchemaGen:
         if k in ("set", "frozenset"):
             return T(k, [self.elem_hashable_type(d - 1)])
         if k == "tuplefix":
-            return T(k, [self.gen_type(d - 1) for _ in range(r.randrange(0, 4))])
+            # Tuple[()] positions are constants that never read their input (modelled in TyModel.v as const
+            # positions and exercised by the Coq correspondence); the wide oracle stream leaves them out
+            return T(k, [self.gen_type(d - 1) for _ in range(r.randrange(0 if self.o.coq_only else 1, 4))])
         if k == "tupleu":
             np_ = r.randrange(0, 3)
             ns_ = r.randrange(0, 3)
@@ -384,7 +391,7 @@ class SchemaGen:
             # element types kept simple and mutually distinguishable on the wire
             mk = lambda: r.choice([self.scalar(), self.leaf(), T("opt", [self.scalar()]), T("list", [self.scalar()])])
             return T("tupleu", [mk() for _ in range(np_ + nm + ns_)], extra=(np_, mode, nm))
-        if k in ("dict", "mapping", "ordereddict", "chainmap"):
+        if k in ("dict", "mapping", "ordereddict", "chainmap", "mappingproxy"):
             return T(k, [self.key_type(), self.gen_type(d - 1)])
         if k == "counter":
             return T(k, [self.key_type()])
@@ -506,8 +513,16 @@ class SchemaGen:
         if t.kind == "float":
             v = r.choice([0.0, 1.5])
             return v, repr(v)
+        if t.kind == "opt" and t.args and r.random() < 0.5:
+            inner = self.simple_default(t.args[0])          # Optional[T] = <non-None default>: explicit null must still win
+            if inner is not None and not (isinstance(inner[0], str) and inner[0].startswith("factory:")):
+                return inner
         if t.kind in ("opt", "none", "any"):
             return None, "None"
+        if t.kind == "tuplefix" and t.args and all(a.kind in ("int", "str", "bool", "float") for a in t.args):
+            inner = [self.simple_default(a) for a in t.args]     # immutable, so a plain default is legal
+            v = tuple(x[0] for x in inner)
+            return v, repr(v)
         if t.kind == "list":
             return "factory:list", "field(default_factory=list)"
         if t.kind == "dict":
@@ -520,6 +535,12 @@ class SchemaGen:
         spec = ClassSpec("nt", name)
         for i in range(r.randrange(1, 4)):
             spec.fields.append(FieldSpec(f"a{i}", self.gen_type(min(d, 1))))
+        # trailing defaults (decoding a shorter list falls back to them)
+        for f in reversed(spec.fields):
+            dv = self.simple_default(f.ty) if r.random() < 0.4 else None
+            if dv is None or (isinstance(dv[0], str) and dv[0].startswith("factory:")):
+                break
+            f.default, f.default_src = dv
         self.fam.classes.append(spec)
         return T("nt", name=name)
 
@@ -590,6 +611,8 @@ class ValueGen:
             return ipaddress.IPv4Interface((r.getrandbits(32), r.choice([8, 24, 32])))
         if kind == "IPv6Interface":
             return ipaddress.IPv6Interface((r.getrandbits(128), r.choice([64, 128])))
+        if kind == "Path":
+            return pathlib.Path(r.choice(["", ".", "/", "a/b", "/usr/lib", "x/../y"]))
         if kind == "PurePosixPath":
             return pathlib.PurePosixPath(r.choice(["", ".", "/", "a/b", "/usr/lib", "rel/../x", "sp ace/ü"]))
         if kind == "Pattern":
@@ -619,6 +642,12 @@ class ValueGen:
             return self.leaf(t.name)
         if k == "enum":
             cls = self.ns[t.name]
+            if issubclass(cls, enum.Flag) and r.random() < 0.5:
+                ms = list(cls)
+                v = ms[0]
+                for m in r.sample(ms, r.randrange(1, len(ms) + 1)):
+                    v = v | m
+                return v
             return r.choice(list(cls))
         n = 0 if depth > 4 else r.choice([0, 1, 2, self.max_len])
         if k in ("list", "seq"):
@@ -640,6 +669,8 @@ class ValueGen:
             return tuple([self.value(a, depth + 1) for a in pre] + mids + [self.value(a, depth + 1) for a in suf])
         if k in ("dict", "mapping"):
             return {kk: self.value(t.args[1], depth + 1) for kk in self.hvalues(t.args[0], n, depth)}
+        if k == "mappingproxy":
+            return types.MappingProxyType({kk: self.value(t.args[1], depth + 1) for kk in self.hvalues(t.args[0], n, depth)})
         if k == "counter":
             return collections.Counter({kk: r.choice([0, 1, 2, 7, -1]) for kk in self.hvalues(t.args[0], n, depth)})
         if k == "chainmap":
@@ -718,7 +749,7 @@ def same(a, b) -> bool:
         return all(any(same(x, y) for y in b) for x in a)
     if isinstance(a, collections.ChainMap):
         return same(a.maps, b.maps)
-    if isinstance(a, dict):
+    if isinstance(a, (dict, types.MappingProxyType)):
         if len(a) != len(b):
             return False
         for k, v in a.items():
@@ -727,6 +758,17 @@ def same(a, b) -> bool:
                 return False
         return True
     return a == b
+
+
+def same_ordered(a, b) -> bool:
+    """same() and, in addition, equal key order of every mapping (C02: key and field order are part of the form)"""
+    if not same(a, b):
+        return False
+    if isinstance(a, dict):
+        return [k for k in a] == [k for k in b] and all(same_ordered(a[k], b[k]) for k in a)
+    if isinstance(a, (list, tuple)):
+        return all(same_ordered(x, y) for x, y in zip(a, b))
+    return True
 
 
 def is_basic(x, allow_any=False) -> bool:
@@ -749,7 +791,7 @@ from harness.vlib import coq_str, coq_z  # noqa: E402
 def in_coq(t: T, fam: Family, seen=None) -> bool:
     seen = seen or set()
     for n in t.walk():
-        if n.kind in ("seq", "deque", "mapping", "ordereddict", "counter", "chainmap", "defaultdict", "nt", "td", "union", "lit", "tupleu"):
+        if n.kind in ("seq", "deque", "mapping", "ordereddict", "counter", "chainmap", "defaultdict", "mappingproxy", "nt", "td", "union", "lit", "tupleu"):
             return False
         if n.kind == "leaf" and n.name == "timezone":
             pass
@@ -849,6 +891,8 @@ def coq_pv(v, seen_leaf=None) -> str:
 
 
 def leaf_kind(v) -> str | None:
+    if isinstance(v, pathlib.Path):
+        return "Path"
     for k, path in LEAF_PY.items():
         mod, name = path.split(".")
         cls = getattr(sys.modules[mod], name)
@@ -927,6 +971,8 @@ def py_src(v) -> str:
         return "deque([" + ", ".join(py_src(x) for x in v) + "])"
     if type(v) is collections.OrderedDict:
         return "OrderedDict([" + ", ".join(f"({py_src(k)}, {py_src(x)})" for k, x in v.items()) + "])"
+    if type(v) is types.MappingProxyType:
+        return "MappingProxyType({" + ", ".join(f"{py_src(k)}: {py_src(x)}" for k, x in v.items()) + "})"
     if type(v) is collections.defaultdict:
         return "defaultdict(None, {" + ", ".join(f"{py_src(k)}: {py_src(x)}" for k, x in v.items()) + "})"
     if type(v) is collections.ChainMap:
